@@ -20,6 +20,10 @@ from vcore.tlaval import parse_dump
 
 
 def tol_for(e):
+    if e.name == "Logit/eps":
+        return 0.06  # declared clamp eps = 0.05 (inputs contain exact 0 and 1)
+    if e.has("large"):
+        return 1e-5
     if e.has("umnn"):
         return 2e-3
     if "Cubic" in e.name:
